@@ -241,5 +241,22 @@ def runA (c : Circuit) (inp : Inputs) : Nat → Array SigMap
 def observe (c : Circuit) (outs : Nat → SigMap) (i : Nat) : SigMap :=
   c.readR outs i ++ c.readG outs i
 
+/-- only combinators compute their output from their input networks -/
+def readsInputs : Kind → Bool
+  | .arith _ => true
+  | .decider _ => true
+  | _ => false
+
+/-- every producer on either input network of a combinator `i` has a smaller rank -/
+def Ranked (c : Circuit) (rank : Nat → Nat) : Prop :=
+  ∀ i p, readsInputs (c.kind i) = true → (p ∈ c.prodR.getD i [] ∨ p ∈ c.prodG.getD i []) → rank p < rank i
+
+/-- executable certificate check for `Ranked` on the entities of the circuit -/
+def checkRanked (c : Circuit) (rank : Nat → Nat) : Bool :=
+  (List.range (max c.prodR.size c.prodG.size)).all (fun i =>
+    !readsInputs (c.kind i) ||
+    ((c.prodR.getD i []).all (fun p => rank p < rank i) && (c.prodG.getD i []).all (fun p => rank p < rank i)))
+
+
 end Circuit
 end Facto
